@@ -334,7 +334,7 @@ impl Check for Weighted {
         "weighted-rules"
     }
     fn rule(&self) -> String {
-        "Gauss-Laguerre against k! and 1/(1-a), Gauss-Hermite against Gaussian moments and sqrt(pi) e^{-b^2/4}, Gauss-Chebyshev first/second kind against the double-factorial moments and pi I_0(a), pi I_1(a)/a; low-degree monomials, and anchored high-degree polynomials 1 + x (+ x^2) + x^d / moment_d up to the degree the rule sequence integrates exactly, x tolerances; signature = (routine, kind, outcome)".into()
+        "Gauss-Laguerre against k! and 1/(1-a), Gauss-Hermite against Gaussian moments and sqrt(pi) e^{-b^2/4}, Gauss-Chebyshev first/second kind against the double-factorial moments and pi I_0(a), pi I_1(a)/a; low-degree monomials, and anchored high-degree polynomials 1 + x (+ x^2) + x^d / moment_d up to the degree the rule sequence integrates exactly, full series sum x^k / moment_k up to the HIGHEST such degree (Laguerre 19, Hermite 48, Chebyshev 100: only the last rules of the tables answer), x tolerances; signature = (routine, kind, outcome)".into()
     }
     fn points(&self, t: Tier) -> Vec<WPt> {
         let mut v = vec![];
@@ -369,6 +369,17 @@ impl Check for Weighted {
                     for d in ds {
                         v.push(WPt { routine, kind: 2, k: d, a: 0.0, tol });
                     }
+                    // full series sum_k x^k / moment_k (every term integrates to exactly 1) up to the HIGHEST degree the
+                    // last three rules of the table integrate exactly: the answer is only reached by the last rules,
+                    // so the agreement of the very last rule has to be tested too
+                    let full: Vec<u32> = match routine {
+                        0 => vec![12, 19],
+                        1 => vec![20, 40, 48],
+                        _ => vec![40, 100],
+                    };
+                    for d in full {
+                        v.push(WPt { routine, kind: 3, k: d, a: 0.0, tol });
+                    }
                 }
             }
         }
@@ -388,6 +399,33 @@ impl Check for Weighted {
             g
         };
         let (exact_raw, f): (f64, Box<dyn Fn(f64) -> f64>) = match (p.routine, p.kind) {
+            (0, 3) => {
+                let d = p.k;
+                ((d + 1) as f64, Box::new(move |x: f64| {
+                    let (mut s, mut term) = (0.0, 1.0);
+                    for k in 0..=d {
+                        s += term;
+                        term *= x / (k as f64 + 1.0);
+                    }
+                    s
+                }))
+            }
+            (1, 3) => {
+                let d = p.k / 2;
+                ((d + 1) as f64, Box::new(move |x: f64| {
+                    // x^{2k} / Gamma(k + 1/2): term_0 = 1/sqrt(pi), term_{k+1} = term_k x^2 / (k + 1/2)
+                    let (mut s, mut term) = (0.0, 1.0 / std::f64::consts::PI.sqrt());
+                    for k in 0..=d {
+                        s += term;
+                        term *= x * x / (k as f64 + 0.5);
+                    }
+                    s
+                }))
+            }
+            (r, 3) => {
+                let d = p.k / 2;
+                ((d + 1) as f64, Box::new(move |x: f64| (0..=d).map(|k| x.powi(2 * k as i32) / if r == 2 { dfact_ratio_cheb1(2 * k) } else { dfact_ratio_cheb2(2 * k) }).sum::<f64>()))
+            }
             (0, 2) => {
                 let m = (1..=p.k).fold(1.0, |r, i| r * i as f64);
                 (3.0, Box::new(move |x: f64| 1.0 + x + x.powi(p.k as i32) / m))
@@ -424,7 +462,7 @@ impl Check for Weighted {
         // scale: the size of the weighted integral of |f|, so that tolerances are comparable across degrees
         let scale = match (p.routine, p.kind) {
             (0, 0) => exact_raw.max(1.0),
-            (_, 2) => 1.0,
+            (_, 2) | (_, 3) => 1.0,
             (1, 0) => {
                 // int |x|^k e^{-x^2} = Gamma((k+1)/2)
                 let kk = p.k as f64;
@@ -455,7 +493,7 @@ impl Check for Weighted {
             o.viol(&subj, "abscissae-inside-the-domain", format!("{}: {:?}", ctx(), asked.iter().take(5).collect::<Vec<_>>()));
         }
         // reliable: polynomials up to the degree for which two consecutive tabulated rules are exact
-        let reliable = p.kind == 0 || p.kind == 2 || (p.a.abs() <= 1.0 && p.tol >= 1e-9);
+        let reliable = p.kind == 0 || p.kind == 2 || p.kind == 3 || (p.a.abs() <= 1.0 && p.tol >= 1e-9);
         let class = match res {
             Err(m) => {
                 o.viol(&subj, "never-panics", format!("{}: {}", ctx(), m));
@@ -906,6 +944,15 @@ impl Check for Romberg {
     }
     fn points(&self, _t: Tier) -> Vec<RomPt> {
         let mut v = vec![];
+        // many rows (the property puts no bound on n; 2^(n-1) panels): low degrees only - the table is exact for them
+        // from its first columns on, whatever a late column does must not spoil the answer
+        for n in [12usize, 16, 17, 18, 20] {
+            for k in [0u32, 1, 2, 3, 5, 9] {
+                for &(centre, length) in &[(0.25, 0.5), (1.0, 4.0)] {
+                    v.push(RomPt { n, k, centre, length });
+                }
+            }
+        }
         for n in 1..=8 {
             for k in 0..=2 * n as u32 {
                 for &centre in &CENTRES {
